@@ -1,39 +1,66 @@
 """C03 — a biadjacency matrix is treated exactly as its bipartite block adjacency.
 
-Two parts:
- (1) plumbing: get_values / stack_values / get_adjacency_values of the implementation against the Lean
-     model (SkNet/Model/Bipartite.lean), exact rationals (`run` lines);
- (2) the relation itself, evaluated on the implementation (this is the property statement, so a failure
-     is a concrete failing input): every estimator / function accepting bipartite input is run on B (with
-     row / column seeds) and on the block adjacency [[0,B],[Bᵀ,0]] (rows first, stacked seeds) and the
-     *_row_ / *_col_ / unsuffixed outputs are compared. Routing of get_distances / get_shortest_path is
-     covered by C10's harness (same model) and by theorems C03.distances_bipartite / shortestPath_bipartite.
+Three parts:
+ (1) plumbing against the Lean model (SkNet/Model/Bipartite.lean), `run` lines, exact rationals:
+     get_values / stack_values / get_adjacency_values; bipartite2undirected / bipartite2directed / get_adjacency on
+     matrices with unsorted indices, duplicates, stored zeros, int / bool data, dense / csc / coo containers
+     (`c03.block`, `c03.adjacency`: the model adds up the COO triples `sparse.bmat` is given; theorem
+     `denote_block` says that this is [[0,B],[Bᵀ,0]]); every `_split_vars` of the base classes (`c03.split`);
+ (2) the relation itself, evaluated on the implementation (this is the property statement, so a failure is a
+     concrete failing input): every estimator / function of the table is run on B (all keyword forms of the row /
+     column seeds) and on the block adjacency built HERE with numpy (np.block, never by the code under test) with
+     the seeds stacked HERE; `*_row_` / `*_col_` / unsuffixed outputs are compared;
+ (3) routing of get_distances / get_shortest_path: C10's handlers and spec lines (theorems C10.route_spec,
+     getDistances_exact, getShortestPath_exact for every argument combination).
 """
+import json
+import os
+import time
 import warnings
+from fractions import Fraction
 
 import numpy as np
 from scipy import sparse
 
 from vlib import graphs
 from vlib.cases import Case, Sub, call, evaluate
-from vlib.core import enc_rat, enc_ratlist, enc_bool, dec_ratlist
+from vlib.core import enc_rat, enc_ratlist, enc_bool, enc_csr, dec_ratlist, ToolFailure, load_findings, match_finding
 
 RULE = ('plumbing: random array / list / dict / None seeds (in-range, out-of-range, empty dict, wrong length) for '
-        'get_values, stack_values, get_adjacency_values x which in {None, probs, labels}; relation: exhaustive 0/1 '
-        'biadjacency matrices up to 2x3 / 3x2 (quick: sampled) and random weighted rectangular / square+force_bipartite '
-        'matrices up to 6x6 x seed placements (row only, column only, both; dict and array) x every estimator of the '
-        'table; a case is non-trivial when B has an edge and the compared outputs are not all equal constants; '
-        'distinct = distinct (entry, matrix, seeds)')
-ASSUMPTIONS = ['deterministic estimators only (shuffle_nodes=False; solvers with fixed iteration budgets)',
-               'numeric outputs compared within 1e-8 (same arithmetic on both sides up to summation order)',
-               'Louvain / Leiden with modularity="dugue" document Barber\'s modularity (directed block) for bipartite '
-               'input: recorded as known finding F-C03-barber, and additionally checked against the directed block']
-TOL = 1e-8
+        'get_values, stack_values, get_adjacency_values (values, values_row, values_col in every combination, also values '
+        'together with values_row / values_col) x which in {None, probs, labels}; block construction: random rectangular / '
+        'square matrices <= 4x4 with unsorted indices, duplicate entries (some cancelling), stored zeros, float / int / bool '
+        'data, csr / csc / coo / dense containers, empty matrices; _split_vars of the 6 base classes on random vectors / '
+        'matrices; relation: exhaustive 0/1 biadjacency matrices up to 2x3 / 3x2 (quick: sampled) and random weighted '
+        'rectangular / square+force_bipartite matrices up to 6x6 (float / int / bool, csr / unsorted csr / csc / dense) x '
+        'seed placements (none; row only, column only, both; dict, array, list; suffixed keywords, unsuffixed keyword for the '
+        'rows, unsuffixed together with *_col; flag given or implied) x every entry of the table. A relation case is '
+        'non-trivial when B has an edge, both forms returned and some compared output of the block fit is not constant '
+        '(a dendrogram: has at least two merges); a plumbing case when a seed / a stored entry is given; '
+        'distinct = distinct (entry, matrix, container, seeds)')
+ASSUMPTIONS = ['deterministic configurations only (shuffle_nodes=False, random_state=0, np.random.seed set before both fits of '
+               'KCenters); PageRank(solver="push") is left out (racy kernel, finding F-push of C04/C16)',
+               'both forms execute the same floating-point program on the same CSR arrays: outputs are compared EXACTLY '
+               '(np.array_equal), except the entries listed in TOL_ENTRIES (ARPACK / LAPACK based: |x-y| <= 1e-9, rtol=0)',
+               'documented row-only defaults are deviations from the literal statement and recorded as known findings, each '
+               'with a compensating exact comparison: F-C03-barber (Louvain / Leiden modularity="dugue" = directed block), '
+               'F-C03-default-rows (no seeds on bipartite input = rows only: PageRank, Diffusion, Dirichlet)',
+               'scipy: csr_matrix(ndarray), np.block, sparse.bmat, tocsr (adds up duplicates), sort_indices']
 DRIVE_MODULES = ['SkNet.Drive.C03', 'SkNet.Drive.C10']
+TOL_ENTRIES = {'Spectral': 1e-9, 'PageRank/lanczos': 1e-9, 'PageRank/bicgstab': 1e-9}
+
+VERIF = os.path.dirname(os.path.dirname(os.path.dirname(os.path.abspath(__file__))))
+
+
+def _quiet():
+    w = warnings.catch_warnings()
+    w.__enter__()
+    warnings.simplefilter('ignore')
+    return w
 
 
 # ------------------------------------------------------------------------------------------------
-# part 1: plumbing against the Lean model
+# part 1a: seeds plumbing against the Lean model
 # ------------------------------------------------------------------------------------------------
 def _enc_values(v):
     if v is None:
@@ -41,6 +68,16 @@ def _enc_values(v):
     if isinstance(v, dict):
         return 'd:' + (';'.join('%d=%s' % (k, enc_rat(x)) for k, x in v.items()) if v else '-')
     return 'a:' + enc_ratlist(list(v))
+
+
+def _dec_values(s, as_array=False):
+    if s == '_':
+        return None
+    if s.startswith('d:'):
+        body = s[2:]
+        return {} if body == '-' else {int(t.split('=')[0]): float(Fraction(t.split('=')[1])) for t in body.split(';')}
+    vals = [float(x) for x in dec_ratlist(s[2:])]
+    return np.array(vals, dtype=float) if as_array else vals
 
 
 def _rand_values(rng, n, allow_bad=True):
@@ -63,30 +100,61 @@ def _show(x):
     return 'ok ' + enc_ratlist([float(v) for v in x])
 
 
-def plumbing_cases(ctx, count):
-    from sknetwork.utils.values import get_values, stack_values
+def _case_values(n, v, d):
+    from sknetwork.utils.values import get_values
+    w = _quiet()
+    impl = call(lambda: _show(get_values((n,), v, d)))
+    w.__exit__(None, None, None)
+    return Case(('values', n, _enc_values(v), d), {'entry': 'get_values'},
+                'c03.values %d %s %s' % (n, _enc_values(v), enc_rat(d)), impl, None, v is not None,
+                {'f': 'get_values', 'n': n, 'values': _enc_values(v), 'array': isinstance(v, np.ndarray), 'default': d})
+
+
+def _case_stack(nr, nc, vr, vc, d):
+    from sknetwork.utils.values import stack_values
+    w = _quiet()
+    impl = call(lambda: _show(stack_values((nr, nc), vr, vc, d)))
+    w.__exit__(None, None, None)
+    return Case(('stack', nr, nc, _enc_values(vr), _enc_values(vc), d), {'entry': 'stack_values'},
+                'c03.stack %d %d %s %s %s' % (nr, nc, _enc_values(vr), _enc_values(vc), enc_rat(d)), impl, None,
+                vr is not None or vc is not None,
+                {'f': 'stack_values', 'shape': [nr, nc], 'row': _enc_values(vr), 'col': _enc_values(vc), 'default': d,
+                 'array': [isinstance(vr, np.ndarray), isinstance(vc, np.ndarray)]})
+
+
+def _case_adjvals(m, allow_dir, fb, val, vrow, vcol, d, which):
     from sknetwork.utils.format import get_adjacency_values
+    nr2, nc2 = m.shape
+    is_sym = (nr2 == nc2) and (abs(m - m.T).nnz == 0)
+
+    def f():
+        w = _quiet()
+        try:
+            a, vals, bip = get_adjacency_values(m, allow_directed=allow_dir, force_bipartite=fb, values=val,
+                                                values_row=vrow, values_col=vcol, default_value=d, which=which)
+        finally:
+            w.__exit__(None, None, None)
+        return 'ok %s %d %s' % (enc_bool(bip), a.shape[0], enc_ratlist([float(x) for x in vals]))
+    impl = call(f)
+    run = 'c03.adjvals %d %d %s %s %s %s %s %s %s %s' % (
+        nr2, nc2, enc_bool(is_sym), enc_bool(allow_dir), enc_bool(fb), _enc_values(val), _enc_values(vrow),
+        _enc_values(vcol), enc_rat(d), which or 'none')
+    return Case(('adjvals', run), {'entry': 'get_adjacency_values'}, run, impl, None, True,
+                {'f': 'get_adjacency_values', 'dense': m.toarray().tolist(), 'allow_directed': allow_dir,
+                 'force_bipartite': fb, 'values': _enc_values(val), 'values_row': _enc_values(vrow),
+                 'values_col': _enc_values(vcol), 'default': d, 'which': which,
+                 'array': [isinstance(x, np.ndarray) for x in (val, vrow, vcol)]})
+
+
+def plumbing_cases(ctx, count):
     rng = ctx.rng
     cases = []
     for t in range(count):
         n = rng.randint(1, 5)
-        v = _rand_values(rng, n)
         d = rng.choice([-1, 0, 2])
-        with warnings.catch_warnings():
-            warnings.simplefilter('ignore')
-            impl = call(lambda: _show(get_values((n,), v, d)))
-        cases.append(Case(('values', n, _enc_values(v), d), {'entry': 'get_values'},
-                          'c03.values %d %s %s' % (n, _enc_values(v), enc_rat(d)), impl, None, v is not None,
-                          {'f': 'get_values', 'n': n, 'values': _enc_values(v), 'default': d}))
+        cases.append(_case_values(n, _rand_values(rng, n), d))
         nr, nc = rng.randint(1, 4), rng.randint(1, 4)
-        vr, vc = _rand_values(rng, nr), _rand_values(rng, nc)
-        with warnings.catch_warnings():
-            warnings.simplefilter('ignore')
-            impl = call(lambda: _show(stack_values((nr, nc), vr, vc, d)))
-        cases.append(Case(('stack', nr, nc, _enc_values(vr), _enc_values(vc), d), {'entry': 'stack_values'},
-                          'c03.stack %d %d %s %s %s' % (nr, nc, _enc_values(vr), _enc_values(vc), enc_rat(d)), impl, None,
-                          vr is not None or vc is not None,
-                          {'f': 'stack_values', 'shape': [nr, nc], 'row': _enc_values(vr), 'col': _enc_values(vc), 'default': d}))
+        cases.append(_case_stack(nr, nc, _rand_values(rng, nr), _rand_values(rng, nc), d))
         # get_adjacency_values on a real matrix
         square = rng.random() < 0.6
         nr2 = rng.randint(2, 4)
@@ -96,31 +164,19 @@ def plumbing_cases(ctx, count):
         if not es:
             es = [(0, 0)]
         m = graphs.csr_from_edges(nr2, es, m=nc2)
-        is_sym = (nr2 == nc2) and (abs(m - m.T).nnz == 0)
         allow_dir = rng.random() < 0.5
         fb = rng.random() < 0.3
-        mode = rng.choice(['values', 'rowcol', 'none'])
+        mode = rng.choice(['values', 'rowcol', 'none', 'values+col', 'values+row', 'all'])
         val = vrow = vcol = None
-        if mode == 'values':
-            # in the bipartite branch `values` is used for the rows
+        if mode in ('values', 'values+col', 'values+row', 'all'):
+            # in the bipartite branch `values` is the alias of `values_row`; on a plain graph it has n entries
             val = _rand_values(rng, nr2, allow_bad=False)
-        elif mode == 'rowcol':
+        if mode in ('rowcol', 'values+row', 'all'):
             vrow = _rand_values(rng, nr2, allow_bad=False)
+        if mode in ('rowcol', 'values+col', 'all'):
             vcol = _rand_values(rng, nc2, allow_bad=False)
-        which = rng.choice([None, 'probs', 'labels'])
-
-        def f():
-            with warnings.catch_warnings():
-                warnings.simplefilter('ignore')
-                a, vals, bip = get_adjacency_values(m, allow_directed=allow_dir, force_bipartite=fb, values=val,
-                                                    values_row=vrow, values_col=vcol, default_value=d, which=which)
-            return 'ok %s %d %s' % (enc_bool(bip), a.shape[0], enc_ratlist([float(x) for x in vals]))
-        impl = call(f)
-        run = 'c03.adjvals %d %d %s %s %s %s %s %s %s %s' % (
-            nr2, nc2, enc_bool(is_sym), enc_bool(allow_dir), enc_bool(fb), _enc_values(val), _enc_values(vrow),
-            _enc_values(vcol), enc_rat(d), which or 'none')
-        cases.append(Case(('adjvals', run), {'entry': 'get_adjacency_values'}, run, impl, None, True,
-                          {'f': 'get_adjacency_values', 'line': run, 'dense': m.toarray().tolist()}))
+        ctx.count('adjvals-mode:' + mode)
+        cases.append(_case_adjvals(m, allow_dir, fb, val, vrow, vcol, d, rng.choice([None, 'probs', 'labels'])))
     return cases
 
 
@@ -135,246 +191,598 @@ def _same_plumbing(c, model, impl, spec_ok):
 
 
 # ------------------------------------------------------------------------------------------------
+# part 1b: the block matrices and get_adjacency against the Lean model
+# ------------------------------------------------------------------------------------------------
+def _enc_rows(m):
+    m = np.asarray(m)
+    return ';'.join(enc_ratlist([Fraction(float(x)) for x in row]) for row in m) if m.shape[0] else '-'
+
+
+def _raw_csr(rng, nr, nc, dtype):
+    """A CSR matrix as scipy accepts it, not canonical: unsorted indices, duplicates (some cancelling), stored zeros."""
+    indptr, indices, data = [0], [], []
+    for i in range(nr):
+        k = rng.randint(0, min(4, nc + 1))
+        for _ in range(k):
+            indices.append(rng.randrange(nc))
+            data.append(rng.choice([1, 1, 2, 3, 0, -1, 0.5] if dtype == 'float64' else ([1, 1, 2, 3, 0, -1] if dtype == 'int64'
+                                                                                       else [True, True, False])))
+        indptr.append(len(indices))
+    return sparse.csr_matrix((np.array(data, dtype=dtype), np.array(indices, dtype=np.int32), np.array(indptr, dtype=np.int32)),
+                             shape=(nr, nc))
+
+
+def _mdesc(m):
+    return {'shape': list(m.shape), 'indptr': m.indptr.tolist(), 'indices': m.indices.tolist(),
+            'data': [float(x) for x in m.data], 'dtype': str(m.dtype)}
+
+
+def _m_of(d):
+    return sparse.csr_matrix((np.array(d['data']).astype(d['dtype']), np.array(d['indices'], dtype=np.int32),
+                              np.array(d['indptr'], dtype=np.int32)), shape=tuple(d['shape']))
+
+
+def _container(m, kind):
+    if kind == 'dense':
+        return m.toarray()
+    if kind == 'csc':
+        return sparse.csc_matrix(m)
+    if kind == 'coo':
+        return sparse.coo_matrix(m)
+    if kind == 'lil':
+        return sparse.lil_matrix(m)
+    return m
+
+
+def _case_block(m, directed):
+    from sknetwork.utils.format import bipartite2undirected, bipartite2directed
+    f = bipartite2directed if directed else bipartite2undirected
+
+    def g():
+        return 'ok ' + _enc_rows(f(m).toarray())
+    impl = call(g)
+    run = 'c03.block %s %s' % (enc_bool(directed), enc_csr(m))
+    return Case(('block', directed, run), {'entry': 'bipartite2directed' if directed else 'bipartite2undirected'}, run, impl, None,
+                m.nnz > 0, {'f': 'block', 'directed': directed, 'matrix': _mdesc(m)})
+
+
+def _case_adjacency(m, cont, allow_dir, fb, fd, ae):
+    from sknetwork.utils.format import get_adjacency
+
+    def g():
+        a, bip = get_adjacency(_container(m, cont), allow_directed=allow_dir, force_bipartite=fb, force_directed=fd,
+                               allow_empty=ae)
+        return 'ok %s %d %s' % (enc_bool(bip), a.shape[0], _enc_rows(a.toarray()))
+    impl = call(g)
+    # the model sees what check_format makes of the container: csr_matrix(x) (csr: unchanged; others: canonical)
+    seen = m if cont == 'csr' else sparse.csr_matrix(_container(m, cont))
+    run = 'c03.adjacency %s %s %s %s %s' % (enc_csr(seen), enc_bool(allow_dir), enc_bool(fb), enc_bool(fd), enc_bool(ae))
+    return Case(('adjacency', run, cont), {'entry': 'get_adjacency', 'container': cont}, run, impl, None, m.nnz > 0,
+                {'f': 'get_adjacency', 'matrix': _mdesc(m), 'container': cont, 'allow_directed': allow_dir,
+                 'force_bipartite': fb, 'force_directed': fd, 'allow_empty': ae})
+
+
+def _same_block(c, model, impl, spec_ok):
+    """scipy adds duplicate entries of a boolean matrix with `or`: a boolean matrix is compared by its pattern"""
+    if (c.desc or {}).get('matrix', {}).get('dtype') == 'bool' and model.startswith('ok') and impl.startswith('ok'):
+        mt, it = model.split(' '), impl.split(' ')
+        if mt[:-1] != it[:-1]:
+            return False
+
+        def pat(t):
+            return [[x != 0 for x in dec_ratlist(r)] for r in t.split(';')] if t != '-' else []
+        return pat(mt[-1]) == pat(it[-1])
+    return False
+
+
+def block_cases(ctx, count):
+    rng = ctx.rng
+    cases = []
+    for t in range(count):
+        nr = rng.randint(1, 4)
+        nc = nr if rng.random() < 0.4 else rng.randint(1, 4)
+        dtype = rng.choice(['float64', 'float64', 'int64', 'bool'])
+        m = _raw_csr(rng, nr, nc, dtype)
+        if nr == nc and rng.random() < 0.4:     # a symmetric one, so that allow_directed=False has both answers
+            s = sparse.csr_matrix(m + m.T)
+            m = s if rng.random() < 0.5 else graphs.unsorted_copy(s, rng)
+        cases.append(_case_block(m, False))
+        cases.append(_case_block(m, True))
+        cont = rng.choice(['csr', 'csr', 'dense', 'csc', 'coo', 'lil'])
+        cases.append(_case_adjacency(m, cont, rng.random() < 0.5, rng.random() < 0.3, rng.random() < 0.3, rng.random() < 0.3))
+        ctx.count('block-dtype:' + dtype)
+    for shape in ((2, 3), (2, 2), (0, 2), (2, 0)):
+        e = sparse.csr_matrix(shape, dtype=float)
+        cases.append(_case_block(e, False))
+        cases.append(_case_adjacency(e, 'csr', True, False, False, False))
+        cases.append(_case_adjacency(e, 'csr', True, True, False, True))
+    return cases
+
+
+# ------------------------------------------------------------------------------------------------
+# part 1c: every `_split_vars` against the Lean model
+# ------------------------------------------------------------------------------------------------
+def _split_classes():
+    """(name, class, attributes split, has a `bipartite` switch)"""
+    from sknetwork.ranking.base import BaseRanking
+    from sknetwork.clustering.base import BaseClustering
+    from sknetwork.embedding.base import BaseEmbedding
+    from sknetwork.regression.base import BaseRegressor
+    from sknetwork.classification.base import BaseClassifier
+    from sknetwork.classification.base_rank import RankClassifier
+    return [('BaseRanking', BaseRanking, ['scores'], False), ('BaseClustering', BaseClustering, ['labels'], False),
+            ('BaseEmbedding', BaseEmbedding, ['embedding'], False), ('BaseRegressor', BaseRegressor, ['values'], False),
+            ('BaseClassifier', BaseClassifier, ['labels', 'probs'], True),
+            ('RankClassifier', RankClassifier, ['labels', 'probs'], False)]
+
+
+def _case_split(name, cls, attrs, switch, bip, nr, nc, cols, seedvals):
+    """Set the unsplit attributes on a bare instance, call `_split_vars((nr, nc))`, compare (unsuffixed, row, col)."""
+    n = nr + nc if bip else nr
+    out = []
+    for a in attrs:
+        two_d = a in ('probs', 'embedding')
+        k = cols if two_d else 1
+        vals = np.array(seedvals[:n * k], dtype=float).reshape(n, k)
+        for c in range(k):
+            def g(a=a, c=c, two_d=two_d):
+                inst = cls.__new__(cls)
+                inst.bipartite = bip
+                for b in attrs:
+                    kk = cols if b in ('probs', 'embedding') else 1
+                    v = np.array(seedvals[:n * kk], dtype=float).reshape(n, kk)
+                    setattr(inst, b + '_', sparse.csr_matrix(v) if b == 'probs' else (v if b == 'embedding' else v[:, 0]))
+                inst._split_vars((nr, nc))
+                res = []
+                for suffix in ('_', '_row_', '_col_'):
+                    x = getattr(inst, a + suffix)
+                    x = x.toarray() if sparse.issparse(x) else np.asarray(x)
+                    res.append(enc_ratlist([float(y) for y in (x[:, c] if two_d else x)]))
+                return 'ok ' + ' '.join(res)
+            impl = call(g, errors=(ValueError, IndexError, TypeError, KeyError, AttributeError))
+            run = 'c03.split %s %d %s' % (enc_bool(bip or not switch), nr, enc_ratlist([float(x) for x in vals[:, c]]))
+            out.append(Case(('split', name, a, c, bip, nr, nc, tuple(seedvals[:n * k])), {'entry': name + '._split_vars', 'output': a},
+                            run, impl, None, n > 0,
+                            {'f': 'split', 'class': name, 'bipartite': bip, 'shape': [nr, nc], 'cols': cols, 'values': seedvals}))
+    return out
+
+
+def split_cases(ctx, count):
+    rng = ctx.rng
+    cases = []
+    classes = _split_classes()
+    for t in range(count):
+        name, cls, attrs, switch = classes[t % len(classes)]
+        nr, nc = rng.randint(0, 4), rng.randint(0, 4)
+        cols = rng.randint(1, 3)
+        bip = True if not switch else rng.random() < 0.7
+        seedvals = [rng.choice([0, 1, 2, 3, -1, 0.5, 7]) for _ in range((nr + nc) * 3)]
+        cases += _case_split(name, cls, attrs, switch, bip, nr, nc, cols, seedvals)
+    return cases
+
+
+# ------------------------------------------------------------------------------------------------
 # part 2: the relation on the implementation
 # ------------------------------------------------------------------------------------------------
-def _block(b):
-    from sknetwork.utils.format import bipartite2undirected
-    return bipartite2undirected(sparse.csr_matrix(b))
+def _block_ref(dense, directed=False):
+    """[[0,B],[Bᵀ,0]] (or [[0,B],[0,0]]) with the row nodes first — built with numpy, not by the code under test."""
+    dense = np.asarray(dense)
+    nr, nc = dense.shape
+    low = np.zeros((nc, nr), dtype=dense.dtype) if directed else dense.T
+    full = np.block([[np.zeros((nr, nr), dtype=dense.dtype), dense], [low, np.zeros((nc, nc), dtype=dense.dtype)]])
+    return sparse.csr_matrix(full)
+
+
+class Entry:
+    def __init__(self, name, variant, mk, kind, force_kw, outs, np_seed=False, custom=None):
+        self.name, self.variant, self.mk, self.kind, self.force_kw, self.outs = name, variant, mk, kind, force_kw, outs
+        self.np_seed, self.custom = np_seed, custom
+
+    @property
+    def label(self):
+        return self.name + ('/' + self.variant if self.variant else '')
+
+    @property
+    def tol(self):
+        return TOL_ENTRIES.get(self.label, TOL_ENTRIES.get(self.name, 0.0))
 
 
 def _table():
-    """(name, factory, seed kind, accepts force_bipartite, outputs)"""
+    """Every public estimator that accepts a biadjacency matrix and for which the block relation is meaningful.
+    Exclusions (with reasons) are listed in design-notes/status/C03.md."""
     from sknetwork.ranking import PageRank, Katz
     from sknetwork.clustering import Louvain, Leiden, PropagationClustering, KCenters
     from sknetwork.hierarchy import Paris, LouvainHierarchy, LouvainIteration
     from sknetwork.classification import Propagation, DiffusionClassifier, NNClassifier, PageRankClassifier
     from sknetwork.regression import Diffusion, Dirichlet
+    from sknetwork.embedding import Spectral, RandomProjection
     T = []
-    T.append(('PageRank(piteration)', lambda: PageRank(solver='piteration', n_iter=50), 'weights', True, ['scores']))
-    T.append(('PageRank(RH)', lambda: PageRank(solver='RH', n_iter=30), 'weights', True, ['scores']))
-    T.append(('Katz', lambda: Katz(), None, False, ['scores']))
+    for solver, it in (('piteration', 50), ('diteration', 20), ('lanczos', 10), ('bicgstab', 10), ('RH', 30)):
+        T.append(Entry('PageRank', solver, (lambda solver=solver, it=it: PageRank(solver=solver, n_iter=it)), 'weights', True,
+                       ['scores']))
+    T.append(Entry('Katz', '', lambda: Katz(), None, False, ['scores']))
     for mod in ('newman', 'potts', 'dugue'):
-        T.append(('Louvain(%s)' % mod, (lambda mod=mod: Louvain(modularity=mod, shuffle_nodes=False, random_state=0)), None, True,
-                  ['labels', 'probs']))
-        T.append(('Leiden(%s)' % mod, (lambda mod=mod: Leiden(modularity=mod, shuffle_nodes=False, random_state=0)), None, True,
-                  ['labels', 'probs']))
-    T.append(('PropagationClustering', lambda: PropagationClustering(), None, False, ['labels', 'probs']))
-    T.append(('Paris', lambda: Paris(), None, False, ['dendrogram']))
-    T.append(('LouvainHierarchy', lambda: LouvainHierarchy(shuffle_nodes=False, random_state=0), None, True, ['dendrogram']))
-    T.append(('LouvainIteration', lambda: LouvainIteration(shuffle_nodes=False, random_state=0), None, True, ['dendrogram']))
-    T.append(('Propagation', lambda: Propagation(), 'labels', False, ['labels', 'probs']))
-    T.append(('DiffusionClassifier', lambda: DiffusionClassifier(), 'labels', False, ['labels', 'probs']))
-    T.append(('NNClassifier', lambda: NNClassifier(n_neighbors=2), 'labels', False, ['labels', 'probs']))
-    T.append(('PageRankClassifier', lambda: PageRankClassifier(), 'labels', False, ['labels', 'probs']))
-    T.append(('Diffusion', lambda: Diffusion(), 'values', False, ['values']))
-    T.append(('Dirichlet', lambda: Dirichlet(), 'values', False, ['values']))
+        T.append(Entry('Louvain', mod, (lambda mod=mod: Louvain(modularity=mod, shuffle_nodes=False, random_state=0)), None, True,
+                       ['labels', 'probs']))
+        T.append(Entry('Leiden', mod, (lambda mod=mod: Leiden(modularity=mod, shuffle_nodes=False, random_state=0)), None, True,
+                       ['labels', 'probs']))
+    T.append(Entry('PropagationClustering', '', lambda: PropagationClustering(), None, False, ['labels', 'probs']))
+    for ni in (1, 5):
+        T.append(Entry('KCenters', 'both,n_init=%d' % ni,
+                       (lambda ni=ni: KCenters(n_clusters=2, center_position='both', n_init=ni)), None, True, ['labels'],
+                       np_seed=True, custom=_compare_centers))
+    T.append(Entry('Paris', '', lambda: Paris(), None, False, ['dendrogram']))
+    T.append(Entry('LouvainHierarchy', '', lambda: LouvainHierarchy(shuffle_nodes=False, random_state=0), None, True, ['dendrogram']))
+    T.append(Entry('LouvainIteration', '', lambda: LouvainIteration(shuffle_nodes=False, random_state=0), None, True, ['dendrogram']))
+    T.append(Entry('Propagation', '', lambda: Propagation(), 'labels', False, ['labels', 'probs']))
+    T.append(Entry('DiffusionClassifier', '', lambda: DiffusionClassifier(), 'labels', True, ['labels', 'probs']))
+    T.append(Entry('NNClassifier', '', lambda: NNClassifier(n_neighbors=2), 'labels', False, ['labels', 'probs']))
+    T.append(Entry('PageRankClassifier', '', lambda: PageRankClassifier(), 'labels', False, ['labels', 'probs']))
+    T.append(Entry('Diffusion', '', lambda: Diffusion(), 'values', True, ['values']))
+    T.append(Entry('Dirichlet', '', lambda: Dirichlet(), 'values', True, ['values']))
+    T.append(Entry('Spectral', '', lambda: Spectral(2), None, True, ['embedding']))
+    T.append(Entry('RandomProjection', '', lambda: RandomProjection(2, random_state=0), None, True, ['embedding']))
     return T
 
 
+KW = {'weights': 'weights', 'labels': 'labels', 'values': 'values'}
+DEFAULT = {'weights': 0.0, 'labels': -1, 'values': -1.0}
+POOL = {'weights': [1.0, 2.0, 3.0], 'labels': [0, 1, 2], 'values': [0.0, 1.0, 2.5, 4.0]}
+
+
 def _seed_sets(rng, kind, nr, nc):
-    """Yield (row seeds, col seeds, stacked seeds) in dict and array forms."""
-    out = []
+    """All seed placements for one matrix, as JSON-able records
+    {'style', 'form', 'row', 'col'} with row / col = None | {index: value}; the keyword forms are
+      rowcol    : X_row= / X_col=                      (force_bipartite implied)
+      plain     : X=<row seeds>                        (rectangular B, or the flag given)
+      plain+col : X=<row seeds>, X_col=<column seeds>  (the unsuffixed keyword is the alias of X_row)
+      none      : no seeds at all"""
     if kind is None:
-        return [(None, None, None, 'none')]
-    if kind == 'weights':
-        out.append((None, None, np.concatenate([np.ones(nr), np.zeros(nc)]), 'default'))   # documented default
-        pool = [1.0, 2.0, 3.0]
-    elif kind == 'labels':
-        pool = [0, 1, 2]
-    else:
-        pool = [0.0, 1.0, 2.5, 4.0]
-    for form in ('dict', 'array'):
+        return [{'style': 'none', 'form': 'none', 'row': None, 'col': None}]
+    out = []
+    if kind in ('weights', 'values'):
+        out.append({'style': 'none', 'form': 'none', 'row': None, 'col': None})
+    pool = POOL[kind]
+    for form in ('dict', 'array', 'list'):
         for place in ('row', 'col', 'both'):
-            rk = sorted(rng.sample(range(nr), rng.randint(1, min(2, nr)))) if place in ('row', 'both') else []
-            ck = sorted(rng.sample(range(nc), rng.randint(1, min(2, nc)))) if place in ('col', 'both') else []
+            lo = 2 if (kind == 'labels' and place != 'both') else 1       # classifiers want two classes: two seeds on a lone side
+            rk = sorted(rng.sample(range(nr), rng.randint(min(lo, nr), min(2, nr)))) if place in ('row', 'both') else []
+            ck = sorted(rng.sample(range(nc), rng.randint(min(lo, nc), min(2, nc)))) if place in ('col', 'both') else []
             rv = {int(k): rng.choice(pool) for k in rk}
             cv = {int(k): rng.choice(pool) for k in ck}
-            if kind == 'labels' and len(set(rv.values()) | set(cv.values())) < 2 and nr + nc > 2:
-                # make sure two classes are present (a single class is re-labelled by `which='labels'`)
-                if rv:
-                    rv[rk[0]] = 0
-                if cv:
-                    cv[ck[0]] = 1
-                elif len(rk) > 1:
-                    rv[rk[1]] = 1
-            stacked = dict(rv)
-            stacked.update({nr + k: v for k, v in cv.items()})
-            if form == 'dict':
-                out.append((rv or None, cv or None, stacked, 'dict-' + place))
-            else:
-                dflt = 0.0 if kind == 'weights' else -1
-                ra = np.array([rv.get(i, dflt) for i in range(nr)], dtype=float) if rv else None
-                ca = np.array([cv.get(i, dflt) for i in range(nc)], dtype=float) if cv else None
-                sa = np.array([stacked.get(i, dflt) for i in range(nr + nc)], dtype=float)
-                if kind == 'labels':
-                    ra = None if ra is None else ra.astype(int)
-                    ca = None if ca is None else ca.astype(int)
-                    sa = sa.astype(int)
-                out.append((ra, ca, sa, 'array-' + place))
+            if kind == 'labels' and len(set(rv.values()) | set(cv.values())) < 2 and len(rv) + len(cv) > 1:
+                # two classes whenever two seeds are drawn (a single class is re-numbered by which='labels': kept, rarer)
+                if rng.random() < 0.9:
+                    ks = [('r', k) for k in rk] + [('c', k) for k in ck]
+                    for t, (side, k) in enumerate(ks):
+                        (rv if side == 'r' else cv)[k] = t % 2
+            styles = ['rowcol']
+            if place == 'row':
+                styles.append('plain')
+            if place == 'both':
+                styles.append('plain+col')
+            for style in styles:
+                out.append({'style': style, 'form': form, 'row': rv or None, 'col': cv or None})
     return out
 
 
-def _fit_b(est, kind, b, sr, sc, force):
+def _materialise(kind, form, d, n):
+    """dict seeds {i: v} in the requested form"""
+    if d is None:
+        return None
+    if form == 'dict':
+        return {int(k): v for k, v in d.items()}
+    arr = [d.get(i, DEFAULT[kind]) for i in range(n)]
+    if kind == 'labels':
+        arr = [int(x) for x in arr]
+    return arr if form == 'list' else np.array(arr, dtype=int if kind == 'labels' else float)
+
+
+def _stack_ref(kind, seeds, nr, nc):
+    """The seeds of the block form, stacked HERE: row node i at i, column node j at n_row + j, the default value in the
+    part that was not given (the documented meaning of values_row / values_col); None when there are no seeds."""
+    r, c = seeds['row'], seeds['col']
+    if r is None and c is None:
+        return None
+    if seeds['form'] == 'dict':
+        st = {int(k): v for k, v in (r or {}).items()}
+        st.update({nr + int(k): v for k, v in (c or {}).items()})
+        return st
+    arr = [(r or {}).get(i, DEFAULT[kind]) for i in range(nr)] + [(c or {}).get(j, DEFAULT[kind]) for j in range(nc)]
+    return np.array(arr, dtype=int if kind == 'labels' else float)
+
+
+def _fit_b(est, kind, x, seeds, nr, nc, force):
     kw = {}
     if force:
         kw['force_bipartite'] = True
-    if kind == 'weights':
-        if sr is not None:
-            kw['weights_row'] = sr
-        if sc is not None:
-            kw['weights_col'] = sc
-    elif kind == 'labels':
-        if sr is not None:
-            kw['labels_row'] = sr
-        if sc is not None:
-            kw['labels_col'] = sc
-    elif kind == 'values':
-        if sr is not None:
-            kw['values_row'] = sr
-        if sc is not None:
-            kw['values_col'] = sc
-    return est.fit(b, **kw)
+    if kind is not None:
+        base = KW[kind]
+        r = _materialise(kind, seeds['form'], seeds['row'], nr)
+        c = _materialise(kind, seeds['form'], seeds['col'], nc)
+        if seeds['style'] == 'rowcol':
+            if r is not None:
+                kw[base + '_row'] = r
+            if c is not None:
+                kw[base + '_col'] = c
+        elif seeds['style'] == 'plain':
+            kw[base] = r
+        elif seeds['style'] == 'plain+col':
+            kw[base] = r
+            kw[base + '_col'] = c
+    return est.fit(x, **kw)
 
 
 def _fit_a(est, kind, a, stacked):
-    if kind == 'weights':
-        return est.fit(a, weights=stacked)
-    if kind == 'labels':
-        return est.fit(a, labels=stacked)
-    if kind == 'values':
-        return est.fit(a, values=stacked)
-    return est.fit(a)
+    if kind is None or stacked is None:
+        return est.fit(a)
+    return est.fit(a, **{KW[kind]: stacked})
 
 
 def _dense(x):
     return x.toarray() if sparse.issparse(x) else np.asarray(x)
 
 
-def _compare(eb, ea, outs, nr):
-    """Return None if the relation holds, else a description."""
+def _eq(x, y, tol):
+    x, y = np.asarray(x), np.asarray(y)
+    if x.shape != y.shape:
+        return False
+    if tol == 0:
+        return bool(np.array_equal(x, y))
+    return bool(np.allclose(x, y, rtol=0, atol=tol, equal_nan=True))
+
+
+def _split_ref(dendrogram, nr, nc, side):
+    """Independent reference for the dendrogram of one side: the merges of the full dendrogram that join two clusters
+    which both meet the side, with the number of side leaves as size (by leaf sets, not by the bookkeeping of
+    split_dendrogram)."""
+    n = nr + nc
+    sel = set(range(nr)) if side == 'row' else set(range(nr, n))
+    leaves = {i: frozenset([i]) for i in range(n)}
+    ident = {frozenset([i]): (i if side == 'row' else i - nr) for i in sel}
+    nxt = len(sel)
+    out = []
+    for t in range(len(dendrogram)):
+        a, b = int(dendrogram[t, 0]), int(dendrogram[t, 1])
+        la, lb = leaves[a], leaves[b]
+        leaves[n + t] = la | lb
+        sa, sb = la & sel, lb & sel
+        if sa and sb:
+            out.append([ident[frozenset(sa)], ident[frozenset(sb)], dendrogram[t, 2], len(sa) + len(sb)])
+            ident[frozenset(sa | sb)] = nxt
+            nxt += 1
+    return np.array(out, dtype=float).reshape(len(out), 4)
+
+
+def _compare(eb, ea, outs, nr, nc, tol):
+    """None if the relation holds, else (output, reason code, text)."""
     for o in outs:
         if o == 'dendrogram':
             full = getattr(eb, 'dendrogram_full_', None)
-            if full is None or not np.allclose(full, ea.dendrogram_, atol=TOL):
-                return 'dendrogram_full_ differs from the dendrogram of the block adjacency'
-            if not np.allclose(eb.dendrogram_, eb.dendrogram_row_, atol=TOL):
-                return 'dendrogram_ is not dendrogram_row_'
+            if full is None or not _eq(full, ea.dendrogram_, tol):
+                return o, 'full-differs', 'dendrogram_full_ differs from the dendrogram of the block adjacency'
+            ref_r, ref_c = _split_ref(np.asarray(ea.dendrogram_), nr, nc, 'row'), _split_ref(np.asarray(ea.dendrogram_), nr, nc, 'col')
+            if getattr(eb, 'dendrogram_row_', None) is None or getattr(eb, 'dendrogram_col_', None) is None:
+                return o, 'missing', 'dendrogram_row_ / dendrogram_col_ missing'
+            if not _eq(np.asarray(eb.dendrogram_row_, dtype=float).reshape(-1, 4), ref_r, tol):
+                return o, 'row-differs', 'dendrogram_row_ is not the block dendrogram restricted to the row nodes'
+            if not _eq(np.asarray(eb.dendrogram_col_, dtype=float).reshape(-1, 4), ref_c, tol):
+                return o, 'col-differs', 'dendrogram_col_ is not the block dendrogram restricted to the column nodes'
+            if not _eq(np.asarray(eb.dendrogram_, dtype=float).reshape(-1, 4), ref_r, tol):
+                return o, 'unsuffixed-differs', 'unsuffixed dendrogram_ is not the row dendrogram'
             continue
         whole = _dense(getattr(ea, o + '_'))
         row = getattr(eb, o + '_row_', None)
         col = getattr(eb, o + '_col_', None)
         plain = getattr(eb, o + '_', None)
         if row is None or col is None or plain is None:
-            return '%s_row_/%s_col_ missing' % (o, o)
+            return o, 'missing', '%s_row_ / %s_col_ / %s_ missing' % (o, o, o)
         row, col, plain = _dense(row), _dense(col), _dense(plain)
-        if o == 'probs' and (row.shape[1] != whole.shape[1] or col.shape[1] != whole.shape[1]):
-            return 'probs have %d/%d columns, block fit has %d' % (row.shape[1], col.shape[1], whole.shape[1])
-        if row.shape[0] != nr or not np.allclose(row, whole[:nr], atol=TOL):
-            return '%s_row_ is not the first n_row entries of the block fit' % o
-        if not np.allclose(col, whole[nr:], atol=TOL):
-            return '%s_col_ is not the remaining n_col entries of the block fit' % o
-        if plain.shape != row.shape or not np.allclose(plain, row, atol=TOL):
-            return 'unsuffixed %s_ is not the row output' % o
+        if whole.shape[0] != nr + nc:
+            return o, 'block-shape', 'the block fit has %d entries, not n_row + n_col' % whole.shape[0]
+        if row.ndim != whole.ndim or (whole.ndim == 2 and (row.shape[1] != whole.shape[1] or col.shape[1] != whole.shape[1])):
+            return o, 'shape-differs', '%s has %s / %s columns, the block fit %s' % (o, row.shape[1:], col.shape[1:], whole.shape[1:])
+        if row.shape[0] != nr or not _eq(row, whole[:nr], tol):
+            return o, 'row-differs', '%s_row_ is not the first n_row entries of the block fit' % o
+        if col.shape[0] != nc or not _eq(col, whole[nr:], tol):
+            return o, 'col-differs', '%s_col_ is not the remaining n_col entries of the block fit' % o
+        if not _eq(plain, whole[:nr], tol):
+            return o, 'unsuffixed-differs', 'unsuffixed %s_ is not the row output' % o
     return None
 
 
-def relation_cases(ctx, mats, seeds_per=2, sub=None):
-    """Evaluate the relation for every estimator of the table on the given biadjacency matrices."""
+def _compare_centers(eb, ea, nr, nc):
+    """KCenters: centers_ are block-numbered, centers_row_ the ones below n_row, centers_col_ the others minus n_row."""
+    cb, ca = np.asarray(eb.centers_), np.asarray(ea.centers_)
+    if not np.array_equal(cb, ca):
+        return 'centers', 'differs', 'centers_ differ from the centres of the block fit'
+    cr = np.asarray(eb.centers_row_) if eb.centers_row_ is not None else np.array([], dtype=int)
+    cc = np.asarray(eb.centers_col_) if eb.centers_col_ is not None else np.array([], dtype=int)
+    if sorted(cr.tolist()) != sorted(int(c) for c in ca if c < nr) or sorted(cc.tolist()) != sorted(int(c) - nr for c in ca if c >= nr):
+        return 'centers', 'split-differs', 'centers_row_ / centers_col_ are not the centres of the block fit, split at n_row'
+    return None
+
+
+def _nonconstant(ea, outs):
+    for o in outs:
+        if o == 'dendrogram':
+            if len(np.asarray(ea.dendrogram_)) >= 2:
+                return True
+            continue
+        w = _dense(getattr(ea, o + '_')).astype(float)
+        if w.size and np.ptp(w) > 0:
+            return True
+    return False
+
+
+def _try(f):
+    w = _quiet()
+    try:
+        return f(), None
+    except Exception as e:    # noqa: the class is part of the comparison
+        return None, type(e).__name__ + ': ' + str(e)[:80]
+    finally:
+        w.__exit__(None, None, None)
+
+
+def _input_of(dense, container, rng_shuffle=None):
+    m = sparse.csr_matrix(dense)
+    if container == 'csr-unsorted':
+        for i in range(m.shape[0]):
+            lo, hi = m.indptr[i], m.indptr[i + 1]
+            m.indices[lo:hi] = m.indices[lo:hi][::-1].copy()
+            m.data[lo:hi] = m.data[lo:hi][::-1].copy()
+        m.has_sorted_indices = False
+        return m
+    return _container(m, container)
+
+
+class Outcomes:
+    """per entry: how many cases were compared, how many ended with both forms raising"""
+    def __init__(self):
+        self.d = {}
+
+    def add(self, label, key, k=1):
+        self.d.setdefault(label, {'compared': 0, 'both-raise': 0, 'nontrivial': 0, 'seconds': 0.0})[key] += k
+
+
+def relation_one(tgt, e, dense, container, seeds, np_seed, force_kw_used, outcomes=None):
+    """One recorded relation case: entry `e` on the biadjacency `dense` (given in `container`) with `seeds`."""
+    dense = np.asarray(dense)
+    nr, nc = dense.shape
+    square = nr == nc
+    x = _input_of(dense, container)
+    a = _block_ref(dense)
+    stacked = _stack_ref(e.kind, seeds, nr, nc)
+    sig = {'entry': e.name, 'variant': e.variant, 'relation': 'bipartite-as-block', 'seeds': seeds['style']}
+    desc = {'f': 'relation', 'entry': e.label, 'biadjacency': {'shape': [nr, nc], 'dense': dense.tolist(), 'dtype': str(dense.dtype),
+                                                              'container': container},
+            'seeds': {'style': seeds['style'], 'form': seeds['form'],
+                      'row': None if seeds['row'] is None else {str(k): v for k, v in seeds['row'].items()},
+                      'col': None if seeds['col'] is None else {str(k): v for k, v in seeds['col'].items()}},
+            'np_seed': np_seed, 'force_bipartite_keyword': force_kw_used}
+    key = (e.label, dense.shape, str(dense.dtype), container, tuple(dense.ravel().tolist()), json.dumps(desc['seeds'], sort_keys=True),
+           force_kw_used)
+
+    def fit_b():
+        if e.np_seed:
+            np.random.seed(np_seed)
+        return _fit_b(e.mk(), e.kind, x, seeds, nr, nc, force_kw_used)
+
+    def fit_a(st=stacked, adj=a, mk=e.mk):
+        if e.np_seed:
+            np.random.seed(np_seed)
+        return _fit_a(mk(), e.kind, adj, st)
+    t0 = time.time()
+    eb, err_b = _try(fit_b)
+    ea, err_a = _try(fit_a)
+    if outcomes is not None:
+        outcomes.add(e.label, 'seconds', time.time() - t0)
+    tgt.count('relation:' + e.label)
+    if err_b or err_a:
+        if outcomes is not None and err_b and err_a:
+            outcomes.add(e.label, 'both-raise')
+        tgt.case(key, False, None)
+        if bool(err_b) != bool(err_a):
+            tgt.spec_fail(dict(sig, output='*', reason='raises-B-only' if err_b else 'raises-block-only'), desc,
+                          {'why': 'one form raises, the other does not', 'biadjacency_form': err_b, 'block_form': err_a})
+        elif err_b.split(':')[0] != err_a.split(':')[0]:
+            tgt.spec_fail(dict(sig, output='*', reason='exception-class-differs'), desc,
+                          {'why': 'the two forms raise different exceptions', 'biadjacency_form': err_b, 'block_form': err_a})
+        return
+    if outcomes is not None:
+        outcomes.add(e.label, 'compared')
+    dugue = e.variant == 'dugue' and e.name in ('Louvain', 'Leiden')
+    why = _compare(eb, ea, e.outs, nr, nc, e.tol)
+    if why is None and e.custom is not None:
+        why = e.custom(eb, ea, nr, nc)
+    nontrivial = bool(dense.any()) and _nonconstant(ea, e.outs)
+    if nontrivial and outcomes is not None:
+        outcomes.add(e.label, 'nontrivial')
+    tgt.case(key, nontrivial, {'entry': e.label, 'biadjacency': dense.tolist(), 'seeds': desc['seeds'], 'holds': why is None})
+    if why is not None:
+        out, reason, text = why
+        detail = {'why': text}
+        # documented deviations: each is accepted only if the compensating comparison holds for EVERY output
+        comp = None
+        if dugue and reason in ('row-differs', 'col-differs', 'shape-differs'):
+            if _compare_dugue(eb, fit_a, dense, e.tol) is None:
+                comp = 'equals-directed-block-fit'
+        elif seeds['style'] == 'none' and e.kind in ('weights', 'values') and reason in ('row-differs', 'col-differs'):
+            dflt = np.concatenate([np.ones(nr), DEFAULT[e.kind] * np.ones(nc)])
+            ed, err = _try(lambda: fit_a(dflt))
+            if err is None and _compare(eb, ed, e.outs, nr, nc, e.tol) is None:
+                comp = 'equals-block-fit-seeded-on-rows-only'
+        if comp is not None:
+            out, reason = ','.join(e.outs), comp
+            detail['compensating_check'] = comp + ' (all outputs)'
+        tgt.spec_fail(dict(sig, output=out, reason=reason), desc, detail)
+    # the documented semantics of the default modularity is checked in full as well, on every case
+    if dugue:
+        whyd = _compare_dugue(eb, fit_a, dense, e.tol)
+        if whyd is not None:
+            tgt.spec_fail(dict(sig, relation='bipartite-as-directed-block', output=whyd[0], reason=whyd[1]), desc,
+                          {'why': 'modularity="dugue" documents Barber\'s modularity, i.e. the labels of the fit on [[0,B],[0,0]] '
+                                  '(probs from B and B^T with these labels): ' + str(whyd[2])})
+
+
+def _membership_probs(a, labels):
+    """normalize(A . membership(labels)) computed with numpy: row i = share of the weight of i going to each label"""
+    labels = np.asarray(labels)
+    k = int(labels.max()) + 1 if len(labels) else 0
+    m = np.zeros((len(labels), k))
+    m[np.arange(len(labels))[labels >= 0], labels[labels >= 0]] = 1
+    p = np.asarray(a, dtype=float).dot(m)
+    norm = np.abs(p).sum(axis=1)
+    norm[norm == 0] = 1
+    return p / norm[:, None]
+
+
+def _compare_dugue(eb, fit_a, dense, tol):
+    """Louvain / Leiden with modularity='dugue' on B: the labels (row, column, unsuffixed) are those of the fit on the
+    DIRECTED block [[0,B],[0,0]]; the probabilities are the membership shares in the undirected block graph."""
+    nr, nc = dense.shape
+    ed, err = _try(lambda: fit_a(None, _block_ref(dense, directed=True)))
+    if err:
+        return '*', 'raises-block-only', err
+    why = _compare(eb, ed, ['labels'], nr, nc, tol)
+    if why is not None:
+        return why
+    ref = _membership_probs(_block_ref(dense).toarray(), np.asarray(ed.labels_))
+    for name, part in (('probs_row_', ref[:nr]), ('probs_col_', ref[nr:]), ('probs_', ref[:nr])):
+        got = getattr(eb, name, None)
+        if got is None:
+            return 'probs', 'missing', name + ' missing'
+        got = _dense(got)
+        if got.shape != part.shape or not np.allclose(got, part, rtol=0, atol=1e-12):
+            return 'probs', 'differs', name + ' is not the membership share computed from the block adjacency and the labels'
+    return None
+
+
+def relation_cases(ctx, mats, seeds_per=2, sub=None, outcomes=None, only=None):
+    """Evaluate the relation for every entry of the table on the given (dense, container) biadjacency matrices."""
     tgt = sub or ctx
     rng = ctx.rng
-    table = _table()
-    from sknetwork.utils.format import bipartite2directed
-    for b in mats:
-        nr, nc = b.shape
-        a = _block(b)
-        force = (nr == nc)
-        bdesc = {'shape': [nr, nc], 'dense': b.toarray().tolist()}
-        for name, mk, kind, accepts_force, outs in table:
-            if force and not accepts_force and kind is None:
-                continue       # a square matrix cannot be declared bipartite to this estimator
-            seeds = _seed_sets(rng, kind, nr, nc)
+    table = [e for e in _table() if only is None or e.name in only]
+    for dense, container in mats:
+        nr, nc = dense.shape
+        square = nr == nc
+        for e in table:
+            seeds = _seed_sets(rng, e.kind, nr, nc)
             if len(seeds) > seeds_per:
-                seeds = [seeds[0]] + rng.sample(seeds[1:], seeds_per - 1) if kind == 'weights' else rng.sample(seeds, seeds_per)
-            for sr, sc, stacked, sname in seeds:
-                if force and not accepts_force and sr is None and sc is None:
-                    continue
-                with warnings.catch_warnings():
-                    warnings.simplefilter('ignore')
-                    try:
-                        eb = _fit_b(mk(), kind, b, sr, sc, force and accepts_force)
-                        err_b = None
-                    except Exception as e:   # noqa
-                        eb, err_b = None, type(e).__name__ + ': ' + str(e)[:80]
-                    try:
-                        ea = _fit_a(mk(), kind, a, stacked)
-                        err_a = None
-                    except Exception as e:   # noqa
-                        ea, err_a = None, type(e).__name__ + ': ' + str(e)[:80]
-                sig = {'entry': name, 'relation': 'bipartite-as-block'}
-                desc = {'entry': name, 'biadjacency': bdesc, 'seeds': sname,
-                        'seeds_row': None if sr is None else (sr if isinstance(sr, dict) else list(map(float, sr))),
-                        'seeds_col': None if sc is None else (sc if isinstance(sc, dict) else list(map(float, sc)))}
-                key = (name, b.shape, tuple(b.toarray().ravel().tolist()), sname, repr(desc['seeds_row']), repr(desc['seeds_col']))
-                if err_b or err_a:
-                    tgt.count('relation-error:' + name)
-                    if bool(err_b) != bool(err_a):
-                        tgt.case(key, True, None)
-                        tgt.spec_fail(sig, desc, {'why': 'one form raises, the other does not', 'biadjacency_form': err_b,
-                                                  'block_form': err_a})
-                    else:
-                        tgt.case(key, False, None)
-                    continue
-                why = _compare(eb, ea, outs, nr)
-                if why and name.endswith('(dugue)'):
-                    # documented: Barber's modularity = the *directed* block [[0,B],[0,0]]
-                    sig = dict(sig, modularity='dugue')
-                tgt.case(key, b.nnz > 0, {'entry': name, 'biadjacency': bdesc['dense'], 'seeds': sname, 'holds': why is None})
-                tgt.count('relation:' + name)
-                if why:
-                    tgt.spec_fail(sig, desc, {'why': why})
-                if name.endswith('(dugue)'):
-                    with warnings.catch_warnings():
-                        warnings.simplefilter('ignore')
-                        ed = mk().fit(bipartite2directed(sparse.csr_matrix(b)))
-                    lab = np.asarray(ed.labels_)
-                    if not (np.array_equal(eb.labels_row_, lab[:nr]) and np.array_equal(eb.labels_col_, lab[nr:])):
-                        tgt.spec_fail({'entry': name, 'relation': 'bipartite-as-directed-block'}, desc,
-                                      {'why': 'labels differ from the fit on [[0,B],[0,0]]'})
+                # the no-seed form (where it exists) in a third of the draws, the rest sampled from the placements
+                first = [s for s in seeds if s['style'] == 'none'][:1] if rng.random() < 0.34 else []
+                seeds = first + rng.sample([s for s in seeds if s['style'] != 'none'], seeds_per - len(first))
+            for s in seeds:
+                implied = s['style'] in ('rowcol', 'plain+col')        # *_row / *_col given: the flag is implied
+                if square and not implied and not e.force_kw:
+                    continue            # a square matrix cannot be declared bipartite to this estimator in this form
+                # the flag: needed on a square matrix unless implied; otherwise given half of the time (must not matter)
+                force = e.force_kw and ((square and not implied) or rng.random() < 0.5)
+                relation_one(tgt, e, dense, container, s, rng.randrange(1000), force, outcomes)
 
 
-def structure_cases(ctx, mats, sub=None):
-    """get_connected_components / is_connected / get_largest_connected_component with force_bipartite."""
-    tgt = sub or ctx
-    from sknetwork.topology import get_connected_components, is_connected, get_largest_connected_component
-    for b in mats:
-        nr, nc = b.shape
-        a = _block(b)
-        bdesc = {'shape': [nr, nc], 'dense': b.toarray().tolist()}
-        sig = {'entry': 'get_connected_components', 'relation': 'bipartite-as-block'}
-        key = ('cc', b.shape, tuple(b.toarray().ravel().tolist()))
-        try:
-            lb = get_connected_components(b, force_bipartite=True)
-            la = get_connected_components(a)
-            if isinstance(lb, tuple):
-                lb = np.concatenate(lb)
-            ok = _same_partition(lb, la)
-            cb = is_connected(b, force_bipartite=True)
-            ca = is_connected(a)
-        except Exception as e:  # noqa
-            tgt.case(key, False, None)
-            tgt.count('structure-error')
-            continue
-        tgt.case(key, b.nnz > 0, {'entry': 'get_connected_components', 'biadjacency': bdesc['dense'], 'holds': bool(ok and cb == ca)})
-        tgt.count('relation:get_connected_components')
-        if not ok:
-            tgt.spec_fail(sig, {'entry': 'get_connected_components', 'biadjacency': bdesc},
-                          {'why': 'components of B (rows then columns) are not those of the block adjacency',
-                           'bip': list(map(int, lb)), 'block': list(map(int, la))})
-        if cb != ca:
-            tgt.spec_fail({'entry': 'is_connected', 'relation': 'bipartite-as-block'}, {'entry': 'is_connected', 'biadjacency': bdesc},
-                          {'why': 'is_connected differs', 'bip': bool(cb), 'block': bool(ca)})
-
-
+# -- structure functions and other functions with their own output forms ---------------------------
 def _same_partition(x, y):
     x, y = list(map(int, x)), list(map(int, y))
     if len(x) != len(y):
@@ -386,39 +794,218 @@ def _same_partition(x, y):
     return True
 
 
-def _matrices(ctx, quick):
+def structure_one(tgt, dense, container, force, outcomes=None):
+    from sknetwork.topology import get_connected_components, is_connected, get_largest_connected_component
+    dense = np.asarray(dense)
+    nr, nc = dense.shape
+    x = _input_of(dense, container)
+    a = _block_ref(dense)
+    bdesc = {'shape': [nr, nc], 'dense': dense.tolist(), 'dtype': str(dense.dtype), 'container': container}
+    kw = {'force_bipartite': True} if force else {}
+
+    def sig(entry, out, reason):
+        return {'entry': entry, 'variant': '', 'relation': 'bipartite-as-block', 'seeds': 'none', 'output': out, 'reason': reason}
+
+    def desc(entry):
+        return {'f': 'structure', 'entry': entry, 'biadjacency': bdesc, 'force_bipartite_keyword': force}
+    # get_connected_components / is_connected
+    (rb, err_b) = _try(lambda: (get_connected_components(x, **kw), is_connected(x, **kw)))
+    (ra, err_a) = _try(lambda: (get_connected_components(a), is_connected(a)))
+    key = ('cc', dense.shape, container, tuple(dense.ravel().tolist()), force)
+    tgt.count('relation:get_connected_components')
+    if err_b or err_a:
+        tgt.case(key, False, None)
+        if outcomes is not None and err_b and err_a:
+            outcomes.add('get_connected_components', 'both-raise')
+        if bool(err_b) != bool(err_a) or err_b.split(':')[0] != err_a.split(':')[0]:
+            tgt.spec_fail(sig('get_connected_components', '*', 'raises-differently'), desc('get_connected_components'),
+                          {'why': 'the two forms do not raise alike', 'biadjacency_form': err_b, 'block_form': err_a})
+    else:
+        lb, cb = rb
+        la, ca = ra
+        if outcomes is not None:
+            outcomes.add('get_connected_components', 'compared')
+        ok = _same_partition(lb, la)
+        nt = bool(dense.any()) and len(set(map(int, la))) > 1
+        if nt and outcomes is not None:
+            outcomes.add('get_connected_components', 'nontrivial')
+        tgt.case(key, nt, {'entry': 'get_connected_components', 'biadjacency': dense.tolist(), 'holds': bool(ok and cb == ca)})
+        if not ok:
+            tgt.spec_fail(sig('get_connected_components', 'labels', 'partition-differs'), desc('get_connected_components'),
+                          {'why': 'components of B (rows then columns) are not those of the block adjacency',
+                           'bip': list(map(int, lb)), 'block': list(map(int, la))})
+        if bool(cb) != bool(ca):
+            tgt.spec_fail(sig('is_connected', 'bool', 'differs'), desc('is_connected'),
+                          {'why': 'is_connected differs', 'bip': bool(cb), 'block': bool(ca)})
+    # get_largest_connected_component with the index: rows, then columns in column numbering (documented)
+    (rb, err_b) = _try(lambda: get_largest_connected_component(x, return_index=True, **kw))
+    (ra, err_a) = _try(lambda: get_largest_connected_component(a, return_index=True))
+    key = ('lcc', dense.shape, container, tuple(dense.ravel().tolist()), force)
+    tgt.count('relation:get_largest_connected_component')
+    if err_b or err_a:
+        tgt.case(key, False, None)
+        if outcomes is not None and err_b and err_a:
+            outcomes.add('get_largest_connected_component', 'both-raise')
+        if bool(err_b) != bool(err_a) or err_b.split(':')[0] != err_a.split(':')[0]:
+            tgt.spec_fail(sig('get_largest_connected_component', '*', 'raises-differently'), desc('get_largest_connected_component'),
+                          {'why': 'the two forms do not raise alike', 'biadjacency_form': err_b, 'block_form': err_a})
+        return
+    if outcomes is not None:
+        outcomes.add('get_largest_connected_component', 'compared')
+    (mb, ib), (ma, ia) = rb, ra
+    ib, ia = np.asarray(ib), np.asarray(ia)
+    k = mb.shape[0]                                     # number of row nodes of the component
+    why = None
+    if len(ib) != mb.shape[0] + mb.shape[1]:
+        why = ('index', 'length', 'the index has %d entries, the returned biadjacency %d + %d nodes' % (len(ib), mb.shape[0], mb.shape[1]))
+    elif not np.array_equal(np.concatenate([ib[:k], nr + ib[k:]]), ia):
+        why = ('index', 'differs', 'index (rows, then n_row + columns) is not the index returned for the block adjacency')
+    elif not np.array_equal(_block_ref(mb.toarray()).toarray(), ma.toarray()):
+        why = ('matrix', 'differs', 'the block adjacency of the returned biadjacency is not the component of the block adjacency')
+    nt = bool(dense.any()) and len(ia) < nr + nc
+    if nt and outcomes is not None:
+        outcomes.add('get_largest_connected_component', 'nontrivial')
+    tgt.case(key, nt, {'entry': 'get_largest_connected_component', 'biadjacency': dense.tolist(), 'holds': why is None})
+    if why:
+        tgt.spec_fail(sig('get_largest_connected_component', why[0], why[1]), desc('get_largest_connected_component'),
+                      {'why': why[2], 'index_bip': ib.tolist(), 'index_block': ia.tolist()})
+
+
+def louvain_embedding_one(tgt, dense, force, outcomes=None):
+    """LouvainEmbedding is NOT a function of the block adjacency (a biadjacency matrix is embedded directly: the rows in
+    the space of the column clusters that keep at least two COLUMNS, the columns in the space of the row labels), so the
+    block relation does not apply. What C03 says about it is checked here: a rectangular matrix, or a square one with
+    force_bipartite=True, gets embedding_row_ (n_row rows) and embedding_col_ (n_col rows), the unsuffixed output is
+    the row output, labels_ are the labels of the n_col columns and embedding_row_ = normalize(B) . membership(labels_)."""
+    from sknetwork.embedding import LouvainEmbedding
+    dense = np.asarray(dense)
+    nr, nc = dense.shape
+    kw = {'force_bipartite': True} if force else {}
+    est, err = _try(lambda: LouvainEmbedding(shuffle_nodes=False, random_state=0).fit(sparse.csr_matrix(dense), **kw))
+    sig = {'entry': 'LouvainEmbedding', 'variant': '', 'relation': 'bipartite-attributes', 'seeds': 'none'}
+    desc = {'f': 'louvain_embedding', 'entry': 'LouvainEmbedding',
+            'biadjacency': {'shape': [nr, nc], 'dense': dense.tolist(), 'dtype': str(dense.dtype), 'container': 'csr'},
+            'force_bipartite_keyword': force}
+    key = ('LE', dense.shape, str(dense.dtype), tuple(dense.ravel().tolist()), force)
+    tgt.count('relation:LouvainEmbedding')
+    if err:
+        tgt.case(key, False, None)
+        tgt.spec_fail(dict(sig, output='*', reason='raises'), desc, {'why': 'fit on a biadjacency matrix raises', 'error': err})
+        return
+    why = None
+    er, ec, eu, lab = est.embedding_row_, est.embedding_col_, est.embedding_, est.labels_
+    if er is None or ec is None or eu is None:
+        why = ('embedding', 'missing', 'embedding_row_ / embedding_col_ missing on bipartite input')
+    elif np.asarray(er).shape[0] != nr or np.asarray(ec).shape[0] != nc:
+        why = ('embedding', 'shape-differs', 'embedding_row_ has %d rows, embedding_col_ %d (n_row=%d, n_col=%d)'
+               % (np.asarray(er).shape[0], np.asarray(ec).shape[0], nr, nc))
+    elif not _eq(eu, er, 0):
+        why = ('embedding', 'unsuffixed-differs', 'unsuffixed embedding_ is not the row output')
+    elif len(np.asarray(lab)) != nc:
+        why = ('labels', 'shape-differs', 'labels_ has %d entries: not the labels of the n_col columns' % len(np.asarray(lab)))
+    else:
+        lab = np.asarray(lab)
+        k = int(lab.max()) + 1 if len(lab) and lab.max() >= 0 else 0
+        m = np.zeros((nc, k))
+        m[np.arange(nc)[lab >= 0], lab[lab >= 0]] = 1
+        d = dense.astype(float)
+        norm = np.abs(d).sum(axis=1)
+        norm[norm == 0] = 1
+        ref = (d / norm[:, None]).dot(m)
+        if np.asarray(er).shape != ref.shape or not np.allclose(er, ref, rtol=0, atol=1e-12):
+            why = ('embedding', 'row-differs', 'embedding_row_ is not normalize(B) . membership(labels_ of the columns)')
+    if outcomes is not None:
+        outcomes.add('LouvainEmbedding', 'compared')
+        if dense.any():
+            outcomes.add('LouvainEmbedding', 'nontrivial')
+    tgt.case(key, bool(dense.any()), {'entry': 'LouvainEmbedding', 'biadjacency': dense.tolist(), 'holds': why is None})
+    if why:
+        tgt.spec_fail(dict(sig, output=why[0], reason=why[1]), desc, {'why': why[2]})
+
+
+def structure_cases(ctx, mats, sub=None, outcomes=None):
+    tgt = sub or ctx
+    for dense, container in mats:
+        nr, nc = dense.shape
+        if nr != nc:
+            structure_one(tgt, dense, container, False, outcomes)      # a rectangular matrix is bipartite by itself
+            louvain_embedding_one(tgt, dense, False, outcomes)
+        structure_one(tgt, dense, container, True, outcomes)
+        louvain_embedding_one(tgt, dense, True, outcomes)
+
+
+# -- generators ------------------------------------------------------------------------------------
+def _matrices(ctx, quick, exhaustive_shapes=None, n_random=None):
+    """(dense ndarray, container) pairs"""
     rng = ctx.rng
     mats = []
-    shapes = [(1, 2), (2, 1), (2, 2), (2, 3), (3, 2)]
+    shapes = exhaustive_shapes or [(1, 2), (2, 1), (2, 2), (2, 3), (3, 2)]
     for nr, nc in shapes:
         allb = [es for es in graphs.all_bipartite(nr, nc) if es]
-        if quick and len(allb) > 6:
-            allb = rng.sample(allb, 6)
+        if quick and len(allb) > 5:
+            allb = rng.sample(allb, 5)
         for es in allb:
-            mats.append(graphs.csr_from_edges(nr, es, m=nc))
-    for _ in range(12 if quick else 150):
-        nr, nc = rng.randint(2, 6), rng.randint(2, 6)
+            mats.append((graphs.csr_from_edges(nr, es, m=nc).toarray(), 'csr'))
+    for t in range(n_random if n_random is not None else (12 if quick else 130)):
+        nr = rng.randint(2, 6)
+        nc = nr if rng.random() < 0.35 else rng.randint(2, 6)
         es = graphs.random_edges(rng, nr, rng.choice([0.3, 0.5, 0.8]), m=nc)
         if not es:
             continue
         w = [rng.choice([1, 1, 2, 3]) for _ in es]
-        mats.append(graphs.csr_from_edges(nr, es, w, m=nc))
+        d = graphs.csr_from_edges(nr, es, w, m=nc).toarray()
+        r = rng.random()
+        if r < 0.2:
+            d = d.astype(np.int64)
+        elif r < 0.3:
+            d = d.astype(bool)
+        mats.append((d, rng.choice(['csr', 'csr', 'csr', 'csr-unsorted', 'csc', 'dense'])))
+        ctx.count('relation-matrix:%s:%s' % (d.dtype, mats[-1][1]))
     return mats
+
+
+def corpus_entries():
+    path = os.path.join(VERIF, 'corpus', 'C03.jsonl')
+    out = []
+    if os.path.exists(path):
+        for ln in open(path):
+            ln = ln.strip()
+            if ln and not ln.startswith('#'):
+                out.append(json.loads(ln))
+    return out
 
 
 def run(ctx):
     quick = ctx.quick
-    evaluate(ctx, plumbing_cases(ctx, 300 if quick else 3000), same=_same_plumbing)
+    outcomes = Outcomes()
+    for rec in corpus_entries():           # minimised past failing inputs first
+        _replay_case(ctx, rec['case'], neighbourhood=False, outcomes=outcomes)
+        ctx.count('corpus')
+    phases = {}
+
+    def phase(name, f):
+        t0 = time.time()
+        f()
+        phases[name] = round(time.time() - t0, 2)
+    phase('plumbing', lambda: evaluate(ctx, plumbing_cases(ctx, 300 if quick else 3000), same=_same_plumbing))
+    phase('block', lambda: evaluate(ctx, block_cases(ctx, 120 if quick else 1500), same=_same_block))
+    phase('split', lambda: evaluate(ctx, split_cases(ctx, 60 if quick else 600)))
     mats = _matrices(ctx, quick)
-    relation_cases(ctx, mats, seeds_per=2 if quick else 4)
-    structure_cases(ctx, mats)
-    routing_cases(ctx, quick)
+    phase('relation', lambda: relation_cases(ctx, mats, seeds_per=2 if quick else 4, outcomes=outcomes))
+    phase('structure', lambda: structure_cases(ctx, mats, outcomes=outcomes))
+    phase('routing', lambda: routing_cases(ctx, quick))
+    ctx.extra['phase_seconds'] = phases
+    ctx.extra['relation_outcomes'] = outcomes.d
+    dead = [k for k, v in outcomes.d.items() if v['compared'] == 0 or v['nontrivial'] == 0]
+    if dead:
+        raise ToolFailure('no relation case of %s was compared non-trivially (the reference raises or is constant every time): '
+                          'the entry is not being checked' % dead)
 
 
 def routing_cases(ctx, quick, sub=None):
     """get_distances / get_shortest_path on biadjacency matrices (source / source_row / source_col / transpose /
-    force_bipartite): the run and spec lines of the path model (C10's handlers; theorems C03.distances_bipartite,
-    C03.shortestPath_bipartite)."""
+    force_bipartite, flag set and implied, malformed calls): the run and spec lines of the path model (C10's handlers;
+    theorems C10.route_spec, getDistances_exact, getShortestPath_exact, restated for bipartite input in Properties/C03)."""
     from harness import c10
     rng = ctx.rng
     cases = []
@@ -434,22 +1021,135 @@ def routing_cases(ctx, quick, sub=None):
     c10.evaluate(sub or ctx, cases)
 
 
+# -- failing-input search --------------------------------------------------------------------------
 def search(ctx, pending):
+    """Hunt for a concrete failing input of the property on the implementation: the relation over the exhaustive small
+    0/1 matrices, weighted and square ones, all entries and seed placements (the entries named by the broken tie
+    first), the structure functions and the routing lines. Failures that only re-find a recorded known finding are
+    dropped BEFORE the list is cut."""
     sub = Sub(ctx)
-    mats = _matrices(ctx, False)[:120]
-    relation_cases(ctx, mats, seeds_per=3, sub=sub)
-    routing_cases(ctx, True, sub=sub)
-    return sub.found()
+    ents = {str((p[1] or {}).get('entry', '')) for p in pending}
+    seeded = {e.name for e in _table() if e.kind is not None}
+    cheap = {e.name for e in _table()} - {'KCenters'}
+    only, seeds_per, routing = cheap, 2, True
+    if ents and ents <= {'get_values', 'stack_values', 'get_adjacency_values'}:
+        only, seeds_per, routing = seeded, 4, False                 # a seed-plumbing function moved: hunt with seeds
+    elif ents and ents <= {'get_distances', 'get_shortest_path'}:
+        only, seeds_per = {'DiffusionClassifier'}, 3               # the routing moved (DiffusionClassifier calls get_distances)
+    elif ents and all(x.endswith('._split_vars') or x in ('bipartite2undirected', 'bipartite2directed', 'get_adjacency')
+                      for x in ents):
+        only, seeds_per, routing = cheap | {'KCenters'}, 1, False   # the block or the split moved: every entry, few seeds
+    mats = _matrices(ctx, False, exhaustive_shapes=[(1, 2), (2, 1), (2, 2)], n_random=16)
+    more = [es for es in graphs.all_bipartite(2, 3) if es]
+    mats += [(graphs.csr_from_edges(2, es, m=3).toarray(), 'csr') for es in ctx.rng.sample(more, 12)]
+    relation_cases(ctx, mats, seeds_per=seeds_per, sub=sub, only=only)
+    structure_cases(ctx, mats, sub=sub)
+    if routing:
+        routing_cases(ctx, True, sub=sub)
+    findings = load_findings()
+    fresh = [f for f in sub.spec_failures if match_finding(findings, ctx.prop, f['sig']) is None]
+    # one representative per (entry, output, reason), entries named by the pending disagreements first
+    seen, out = set(), []
+    for f in fresh:
+        k = (f['sig'].get('entry'), f['sig'].get('variant'), f['sig'].get('output'), f['sig'].get('reason'))
+        if k in seen:
+            continue
+        seen.add(k)
+        out.append({'sig': f['sig'], 'case': f['case'], 'detail': f['detail']})
+    return out[:8]
+
+
+# -- replay ----------------------------------------------------------------------------------------
+def _entry_by_label(label):
+    for e in _table():
+        if e.label == label:
+            return e
+    raise ToolFailure('replay: unknown entry %r' % label)
+
+
+def _replay_case(ctx, case, neighbourhood=True, outcomes=None):
+    """Re-run exactly the recorded case on the current tree, then (for a replay) its neighbourhood."""
+    f = case.get('f')
+    if f == 'relation':
+        bd = case['biadjacency']
+        dense = np.array(bd['dense']).astype(bd.get('dtype', 'float64')).reshape(bd['shape'])
+        s = case['seeds']
+        seeds = {'style': s['style'], 'form': s['form'],
+                 'row': None if s['row'] is None else {int(k): v for k, v in s['row'].items()},
+                 'col': None if s['col'] is None else {int(k): v for k, v in s['col'].items()}}
+        relation_one(ctx, _entry_by_label(case['entry']), dense, bd.get('container', 'csr'), seeds, case.get('np_seed', 0),
+                     bool(case.get('force_bipartite_keyword')), outcomes)
+        if neighbourhood:
+            relation_cases(ctx, [(dense, bd.get('container', 'csr'))], seeds_per=6, only={_entry_by_label(case['entry']).name})
+            relation_cases(ctx, [(dense, 'csr')], seeds_per=3)
+    elif f == 'structure':
+        bd = case['biadjacency']
+        dense = np.array(bd['dense']).astype(bd.get('dtype', 'float64')).reshape(bd['shape'])
+        structure_one(ctx, dense, bd.get('container', 'csr'), bool(case.get('force_bipartite_keyword')), outcomes)
+        if neighbourhood:
+            structure_cases(ctx, [(dense, 'csr')])
+    elif f == 'louvain_embedding':
+        bd = case['biadjacency']
+        dense = np.array(bd['dense']).astype(bd.get('dtype', 'float64')).reshape(bd['shape'])
+        louvain_embedding_one(ctx, dense, bool(case.get('force_bipartite_keyword')), outcomes)
+        if neighbourhood:
+            structure_cases(ctx, [(dense, 'csr')])
+    elif f == 'get_values':
+        arr = case.get('array', False)
+        cs = [_case_values(case['n'], _dec_values(case['values'], arr), case['default'])]
+        if neighbourhood:
+            cs += [_case_values(case['n'], _rand_values(ctx.rng, case['n']), case['default']) for _ in range(50)]
+        evaluate(ctx, cs, same=_same_plumbing)
+    elif f == 'stack_values':
+        nr, nc = case['shape']
+        arr = case.get('array', [False, False])
+        cs = [_case_stack(nr, nc, _dec_values(case['row'], arr[0]), _dec_values(case['col'], arr[1]), case['default'])]
+        if neighbourhood:
+            cs += [_case_stack(nr, nc, _rand_values(ctx.rng, nr), _rand_values(ctx.rng, nc), case['default']) for _ in range(50)]
+        evaluate(ctx, cs, same=_same_plumbing)
+    elif f == 'get_adjacency_values':
+        m = sparse.csr_matrix(np.array(case['dense'], dtype=float))
+        if 'values' not in case and 'line' in case:       # payloads written before the replay was repaired
+            t = case['line'].split(' ')
+            case = dict(case, allow_directed=t[4] == '1', force_bipartite=t[5] == '1', values=t[6], values_row=t[7],
+                        values_col=t[8], default=float(Fraction(t[9])), which=None if t[10] == 'none' else t[10])
+        arr = case.get('array', [False, False, False])
+        args = (case['allow_directed'], case['force_bipartite'], _dec_values(case['values'], arr[0]),
+                _dec_values(case['values_row'], arr[1]), _dec_values(case['values_col'], arr[2]), case['default'], case['which'])
+        cs = [_case_adjvals(m, *args)]
+        if neighbourhood:
+            nr, nc = m.shape
+            for _ in range(60):
+                cs.append(_case_adjvals(m, ctx.rng.random() < 0.5, ctx.rng.random() < 0.5, _rand_values(ctx.rng, nr, False),
+                                        _rand_values(ctx.rng, nr, False), _rand_values(ctx.rng, nc, False), case['default'],
+                                        ctx.rng.choice([None, 'probs', 'labels'])))
+        evaluate(ctx, cs, same=_same_plumbing)
+    elif f == 'block':
+        m = _m_of(case['matrix'])
+        evaluate(ctx, [_case_block(m, case['directed'])] + ([_case_block(m, not case['directed'])] if neighbourhood else []), same=_same_block)
+    elif f == 'get_adjacency':
+        m = _m_of(case['matrix'])
+        cs = [_case_adjacency(m, case['container'], case['allow_directed'], case['force_bipartite'], case['force_directed'],
+                              case['allow_empty'])]
+        if neighbourhood:
+            for cont in ('csr', 'dense', 'csc', 'coo', 'lil'):
+                for ad in (False, True):
+                    for fb in (False, True):
+                        cs.append(_case_adjacency(m, cont, ad, fb, case['force_directed'], case['allow_empty']))
+        evaluate(ctx, cs, same=_same_block)
+    elif f == 'split':
+        cls = {c[0]: c for c in _split_classes()}[case['class']]
+        nr, nc = case['shape']
+        evaluate(ctx, _case_split(cls[0], cls[1], cls[2], cls[3], case['bipartite'], nr, nc, case['cols'], case['values']))
+    elif f in ('get_distances', 'get_shortest_path') and 'biadjacency' in case:
+        from harness import c10
+        c10.evaluate(ctx, c10._cases_of(ctx, case, neighbourhood=neighbourhood))
+    else:
+        raise ToolFailure('replay: the payload does not describe a C03 case (f=%r)' % f)
 
 
 def replay(ctx, payload):
-    case = payload.get('case') or {}
-    if 'biadjacency' in case:
-        b = sparse.csr_matrix(np.array(case['biadjacency']['dense'], dtype=float))
-        if case.get('entry') in ('get_connected_components', 'is_connected'):
-            structure_cases(ctx, [b])
-        else:
-            # all seed placements of every estimator on this matrix
-            relation_cases(ctx, [b], seeds_per=8)
-    else:
-        run(ctx)
+    case = payload.get('case') or (payload.get('what_no_longer_checks') or {}).get('case') or {}
+    if 'f' not in case and 'biadjacency' in case and 'entry' in case:
+        raise ToolFailure('replay: payload of the old format (before the replay was repaired); re-run the check to get a new one')
+    _replay_case(ctx, case, neighbourhood=True)
